@@ -9,7 +9,8 @@ from common import Cmat, Cx, R, Rmat, cfl, fl, flmat, max_rel_err
 
 from common import wiring_pre_build as pre_build  # noqa: E402,F401
 
-LEAN_MODULES = ["PyomaVerif.Props.C01", "PyomaVerif.Props.WiringRun", "PyomaVerif.Props.C01C11", "PyomaVerif.Props.C01E2E"]
+LEAN_MODULES = ["PyomaVerif.Props.C01", "PyomaVerif.Props.WiringRun", "PyomaVerif.Props.C01C11", "PyomaVerif.Props.C01E2E",
+                "PyomaVerif.Props.C01Table"]
 THEOREMS = [
     # call-site wiring of the class layer, regenerated from /repo on every run (translate_wiring.py)
     "PV.WiringRun.C12_run_build_hank",
@@ -49,9 +50,22 @@ THEOREMS = [
     "PV.C01E2E.C01_pole_pair",
     "PV.C01E2E.Ex.recovered",
     "PV.C01E2E.ExDat.recovered",
+    # the same, concluded on the cells of the tables the model of ssi.SSI_poles returns (Model/Poles.lean `ssiPoles`,
+    # Lemmas/Poles.lean, Props/C01Table.lean): column content, list position -> column, "SSI_poles returns" are derived
+    "PV.Poles.ssiPoles_spec",
+    "PV.Poles.ssiPoles_ok",
+    "PV.C01Table.C01_table_of_recovered",
+    "PV.C01Table.fastLists_get",
+    "PV.C01Table.ssiEigArgs_fast",
+    "PV.C01Table.C01_e2e_cov_table",
+    "PV.C01Table.C01_e2e_dat_table",
+    "PV.C01Table.Ex.table",
+    "PV.C01Table.ExDat.table",
 ]
 RULE = (
-    "correspondence: ssi.SSI_fast, ssi.SSI, ssi.ac2mp and the SSI_poles table pattern vs the Lean model, the LAPACK results "
+    "correspondence: ssi.SSI_fast (also its list-building loop with step 1..3), ssi.SSI, ssi.ac2mp and ssi.SSI_poles as one model function "
+    "(table VALUES cell by cell incl. Lambds, NaN pattern, shapes, step != 1 incl. the exception class, the matrices handed to "
+    "eig, Fn_cov/Xi_cov cells with calc_unc) vs the Lean model, the LAPACK results "
     "(svd, qr, inv, pinv, eig) recorded by wrapping the numpy/scipy entry points in the harness process and handed to the "
     "model as exact rationals (1e-10 relative); oracle: random exact systems over the property's domain (m 1..6, 2..8 "
     "channels, reference subsets observing all modes, br >= index+1, cov_mm and dat, fast and legacy routine, real/complex "
